@@ -329,4 +329,132 @@ theorem convertEntries_meaning {k : Kind} {c : Cfg} {ca : Nat → Option Addr} {
     rw [step]
     split <;> simp
 
+/-- a successful conversion saw no `Err` from the raw iterator -/
+theorem convertEntries_ok_items {k : Kind} {c : Cfg} {ca : Nat → Option Addr} {ce : Bytes → CR WExpr}
+    {addr : Bytes} {ab : Nat} : ∀ (evs : List (Ev Entry)) (hb : Bool) (out : WList),
+    convertEntries k c ca ce addr ab hb evs = .ok out → ∃ l : List Entry, evs = l.map .item
+  | [], _, _, _ => ⟨[], rfl⟩
+  | .error e :: rest, hb, out, h => by simp [convertEntries] at h
+  | .item x :: rest, hb, out, h => by
+    obtain ⟨w, hb', ws, _, h2, _⟩ := convertEntries_cons_ok h
+    obtain ⟨l, hl⟩ := convertEntries_ok_items rest hb' ws h2
+    exact ⟨x :: l, by simp [hl]⟩
+
+/-- an entry the conversion drops denotes nothing, whatever the base address -/
+theorem empty_denotes_nothing (s : Nat) (enc : WExpr → Bytes) (w : WEntry) (h : isEmptyEntry w = true)
+    (base : Nat) (ys : List Entry) :
+    resolveList s noTable base (asBuilt enc w :: ys) = resolveList s noTable base ys := by
+  cases w with
+  | baseAddress a => simp [isEmptyEntry] at h
+  | defaultLocation x => simp [isEmptyEntry] at h
+  | offsetPair b e x =>
+    have : b = e := by simpa [isEmptyEntry] using h
+    subst this
+    simp [asBuilt, resolveList, resolve1, Keep]
+  | startEnd b e x =>
+    have : b = e := by simpa [isEmptyEntry] using h
+    subst this
+    simp [asBuilt, resolveList, resolve1, Keep]
+  | startLength b len x =>
+    have : len = 0 := by simpa [isEmptyEntry] using h
+    subst this
+    have := Nat.mod_le (addrVal b) (addrMod s)
+    have hk : ¬ Keep s base (addrVal b) (addrVal b % addrMod s) false := by
+      simp only [Keep]; omega
+    simp [asBuilt, resolveList, resolve1, hk]
+
+/-- the converted list is the sequence of per-entry conversions, in order, minus the empty ones -/
+theorem convertEntries_shape {k : Kind} {c : Cfg} {ca : Nat → Option Addr} {ce : Bytes → CR WExpr}
+    {addr : Bytes} {ab : Nat} : ∀ (l : List Entry) (hb : Bool) (out : WList),
+    convertEntries k c ca ce addr ab hb (l.map .item) = .ok out →
+    ∃ ws : List WEntry, ws.length = l.length ∧
+      (∀ p ∈ l.zip ws, ∃ h h', convertEntry k c ca ce addr ab h p.1 = .ok (p.2, h')) ∧
+      out = ws.filter (fun w => !isEmptyEntry w)
+  | [], hb, out, h => by
+    simp only [List.map_nil, convertEntries, Except.ok.injEq] at h
+    subst h; exact ⟨[], rfl, by simp, rfl⟩
+  | x :: xs, hb, out, h => by
+    simp only [List.map_cons] at h
+    obtain ⟨w, hb', ws, h1, h2, rfl⟩ := convertEntries_cons_ok h
+    obtain ⟨ws', hlen, hf, rfl⟩ := convertEntries_shape xs hb' ws h2
+    refine ⟨w :: ws', by simp [hlen], ?_, ?_⟩
+    · intro p hp
+      simp only [List.zip_cons_cons, List.mem_cons] at hp
+      rcases hp with rfl | hp
+      · exact ⟨hb, hb', h1⟩
+      · exact hf p hp
+    · cases hw : isEmptyEntry w <;> simp [List.filter, hw]
+
+/-- the conversion never panics or diverges as long as the expression conversion does not -/
+theorem convertEntry_no_crash {k : Kind} {c : Cfg} {ca : Nat → Option Addr} {ce : Bytes → CR WExpr}
+    {addr : Bytes} {ab : Nat} (hce : ∀ d, ce d ≠ .error .crash) (hb : Bool) (x : Entry) :
+    convertEntry k c ca ce addr ab hb x ≠ .error .crash := by
+  have hA : ∀ a, convAddr ca a ≠ .error .crash := by
+    intro a; unfold convAddr; split <;> simp
+  have hU : ∀ i, unitAddress c addr ab i ≠ .error .crash := by
+    intro i
+    have hn := getAddress_normal c addr ab i
+    unfold unitAddress
+    cases hg : getAddress c addr ab i with
+    | ok a => simp [liftRead]
+    | err e => simp [liftRead]
+    | panic w => rw [hg] at hn; simp [Out.Normal] at hn
+    | diverge => rw [hg] at hn; simp [Out.Normal] at hn
+  have hD : ∀ d, convData k ce d ≠ .error .crash := by
+    intro d; cases k
+    · simp [convData]
+    · exact hce d
+  have bindNC : ∀ {α β : Type} (x : CR α) (f : α → CR β), x ≠ .error .crash →
+      (∀ a, f a ≠ .error .crash) → (x >>= f) ≠ .error .crash := by
+    intro α β x f hx hf
+    cases x with
+    | ok a => exact hf a
+    | error e => intro h; exact hx (by simpa [bind, Except.bind] using h)
+  cases x with
+  | pair b e d =>
+    simp only [convertEntry]
+    refine bindNC _ _ (hA b) fun b' => bindNC _ _ (hA e) fun e' => bindNC _ _ (hD d) fun x => ?_
+    split
+    · split <;> simp [pure, Except.pure, throw, throwThe, MonadExceptOf.throw]
+    · simp [pure, Except.pure]
+  | baseAddress a =>
+    exact bindNC _ _ (hA a) fun _ => by simp [pure, Except.pure]
+  | baseAddressx i =>
+    exact bindNC _ _ (hU i) fun a => bindNC _ _ (hA a) fun _ => by simp [pure, Except.pure]
+  | startxEndx b e d =>
+    exact bindNC _ _ (hU b) fun b0 => bindNC _ _ (hA b0) fun _ => bindNC _ _ (hU e) fun e0 =>
+      bindNC _ _ (hA e0) fun _ => bindNC _ _ (hD d) fun _ => by simp [pure, Except.pure]
+  | startxLength b l d =>
+    exact bindNC _ _ (hU b) fun b0 => bindNC _ _ (hA b0) fun _ => bindNC _ _ (hD d) fun _ => by
+      simp [pure, Except.pure]
+  | offsetPair b e d => exact bindNC _ _ (hD d) fun _ => by simp [pure, Except.pure]
+  | defaultLocation d => exact bindNC _ _ (hD d) fun _ => by simp [pure, Except.pure]
+  | startEnd b e d =>
+    exact bindNC _ _ (hA b) fun _ => bindNC _ _ (hA e) fun _ => bindNC _ _ (hD d) fun _ => by
+      simp [pure, Except.pure]
+  | startLength b l d =>
+    exact bindNC _ _ (hA b) fun _ => bindNC _ _ (hD d) fun _ => by simp [pure, Except.pure]
+
+theorem convertEntries_no_crash {k : Kind} {c : Cfg} {ca : Nat → Option Addr} {ce : Bytes → CR WExpr}
+    {addr : Bytes} {ab : Nat} (hce : ∀ d, ce d ≠ .error .crash) : ∀ (evs : List (Ev Entry)) (hb : Bool),
+    convertEntries k c ca ce addr ab hb evs ≠ .error .crash
+  | [], _ => by simp [convertEntries]
+  | .error e :: _, _ => by simp [convertEntries]
+  | .item x :: rest, hb => by
+    simp only [convertEntries]
+    cases h1 : convertEntry k c ca ce addr ab hb x with
+    | error e =>
+      intro h
+      have := convertEntry_no_crash (k := k) (c := c) (ca := ca) (addr := addr) (ab := ab) hce hb x
+      rw [h1] at this
+      exact this (by simpa [bind, Except.bind] using h)
+    | ok p =>
+      cases h2 : convertEntries k c ca ce addr ab p.2 rest with
+      | error e =>
+        intro h
+        have := convertEntries_no_crash (k := k) (c := c) (ca := ca) (addr := addr) (ab := ab) hce rest p.2
+        rw [h2] at this
+        exact this (by simpa [bind, Except.bind, h2] using h)
+      | ok ws => simp [bind, Except.bind, h2, pure, Except.pure]
+
 end Gimli.ConvLists
